@@ -14,6 +14,7 @@ def holds : PC → Option Nat
   | .mNote m _ _ => some m.sh
   | .mTtl m => some m.sh
   | .mTtlMap m _ => some m.sh
+  | .mTti m => some m.sh
   | .mCapLoad m => some m.sh
   | .mCapEvict m _ => some m.sh
   | .mCapMap m _ _ => some m.sh
@@ -29,8 +30,8 @@ theorem invL_init : InvL init := by constructor <;> simp [init, holds]
 
 @[simp] theorem holds_idle  : holds (.idle ) = none := rfl
 @[simp] theorem holds_done {r} : holds (.done r) = none := rfl
-@[simp] theorem holds_rd {k} : holds (.rd k) = none := rfl
-@[simp] theorem holds_ins {k} {v} {c} : holds (.ins k v c) = none := rfl
+@[simp] theorem holds_rd {k p} : holds (.rd k p) = none := rfl
+@[simp] theorem holds_ins {k v c e l} : holds (.ins k v c e l) = none := rfl
 @[simp] theorem holds_insSub {k} {c} {old} : holds (.insSub k c old) = none := rfl
 @[simp] theorem holds_insEv {k} {c} : holds (.insEv k c) = none := rfl
 @[simp] theorem holds_insAdd {k} {c} : holds (.insAdd k c) = none := rfl
@@ -52,6 +53,7 @@ theorem invL_init : InvL init := by constructor <;> simp [init, holds]
 @[simp] theorem holds_mNote {m} {ws} {ns} : holds (.mNote m ws ns) = some m.sh := rfl
 @[simp] theorem holds_mTtl {m} : holds (.mTtl m) = some m.sh := rfl
 @[simp] theorem holds_mTtlMap {m} {e} : holds (.mTtlMap m e) = some m.sh := rfl
+@[simp] theorem holds_mTti {m} : holds (.mTti m) = some m.sh := rfl
 @[simp] theorem holds_mCapLoad {m} : holds (.mCapLoad m) = some m.sh := rfl
 @[simp] theorem holds_mCapEvict {m} {n} : holds (.mCapEvict m n) = some m.sh := rfl
 @[simp] theorem holds_mCapMap {m} {v} {r} : holds (.mCapMap m v r) = some m.sh := rfl
@@ -66,7 +68,7 @@ theorem holds_afterSub (m : MCtx) (ws ns) : holds (afterSub m ws ns) = some m.sh
   unfold afterSub; split <;> first | exact holds_nextAdmit _ _ | rfl
 theorem holds_afterVictim (m : MCtx) (ws vs tot ns) : holds (afterVictim m ws vs tot ns) = some m.sh := by
   unfold afterVictim; split <;> rfl
-theorem holds_startPC (op : Op) : holds (startPC op) = none := by cases op <;> rfl
+theorem holds_startPC (c : Cfg) (n : Nat) (op : Op) : holds (startPC c n op) = none := by cases op <;> rfl
 
 /-- `pc t` changes to a PC with the same lock footprint; locks unchanged -/
 theorem invL_frame {s s' : State} (hi : InvL s) (t : Nat) (x : PC) (hpc : s'.pc = upd s.pc t x)
@@ -150,6 +152,7 @@ theorem invL_step {c : Cfg} {s s' : State} {t : Nat} {l : Label} (hi : InvL s) (
     InvL s' := by
   cases l <;> simp only [step] at h
   case call op => invl_step hi h stepCall
+  case advance d => simp at h; subst h; exact ⟨hi.held, hi.owner⟩
   case read => invl_step hi h stepRead
   case insMap => invl_step hi h stepInsMap
   case insSub => invl_step hi h stepInsSub
@@ -174,6 +177,7 @@ theorem invL_step {c : Cfg} {s s' : State} {t : Nat} {l : Label} (hi : InvL s) (
   case evNote sent => invl_step hi h stepEvNote
   case ttlAdvance e => invl_step hi h stepTtlAdvance
   case ttlMap sent => invl_step hi h stepTtlMap
+  case ttiMap vs sent => invl_step hi h stepTtiMap
   case capLoad => invl_step hi h stepCapLoad
   case capEvict v r => invl_step hi h stepCapEvict
   case capMap sent => invl_step hi h stepCapMap
@@ -216,7 +220,7 @@ theorem invM_bulk {s s' : State} (hi : InvM s) (w : Reason) (r : List (Nat × En
 
 theorem invM_one {s s' : State} (hi : InvM s) (k v : Nat) (w : Reason)
     (hr : s'.removed = s.removed ++ [⟨s.nextRid, k, v, w⟩]) (hn : s'.nextRid = s.nextRid + 1) : InvM s' :=
-  invM_bulk hi w [(k, ⟨v, 0⟩)] (by simpa [mkNotes] using hr) (by simpa using hn)
+  invM_bulk hi w [(k, ⟨v, 0, 0, 0⟩)] (by simpa [mkNotes] using hr) (by simpa using hn)
 
 syntax "invm_step " ident ident ident : tactic
 macro_rules | `(tactic| invm_step $hi $h $f) => `(tactic|
@@ -233,6 +237,7 @@ theorem invM_step {c : Cfg} {s s' : State} {t : Nat} {l : Label} (hi : InvM s) (
     InvM s' := by
   cases l <;> simp only [step] at h
   case call op => invm_step hi h stepCall
+  case advance d => simp at h; subst h; exact ⟨hi.lt, hi.nodup⟩
   case read => invm_step hi h stepRead
   case insMap => invm_step hi h stepInsMap
   case insSub => invm_step hi h stepInsSub
@@ -257,6 +262,7 @@ theorem invM_step {c : Cfg} {s s' : State} {t : Nat} {l : Label} (hi : InvM s) (
   case evNote sent => invm_step hi h stepEvNote
   case ttlAdvance e => invm_step hi h stepTtlAdvance
   case ttlMap sent => invm_step hi h stepTtlMap
+  case ttiMap vs sent => invm_step hi h stepTtiMap
   case capLoad => invm_step hi h stepCapLoad
   case capEvict v r => invm_step hi h stepCapEvict
   case capMap sent => invm_step hi h stepCapMap
